@@ -7,10 +7,28 @@
 // Line kinds (one self-contained script per line):
 //
 //		tp <gen> <kinds> <opt> | reg:i unr:i sd:c ff:c tr:k st:k:j en:j sp:k psd:i … => <obs> …
+//		etp <gen> <kinds> | <tp ops> … => <obs> …      callback RESULTS as a script dimension: pools with `re` processors — a
+//		               recording user processor whose Shutdown and ForceFlush return a non-nil error (after counting) —, `sre` / `bre`
+//		               (simple / batch processor around a recording exporter whose ExportSpans and Shutdown return an error); the result
+//		               class of a call that returns such an error is `err:o`; replayed on Err.stepE (lean/Otel/C15/Err.lean)
+//		elp <gen> <kinds> | <lp ops> … => <obs> …      the same for the logger provider: `re` = recording log processor whose OnEmit /
+//		               ForceFlush / Shutdown return an error, `sre` / `bre` = simple / batch log processor around a recording
+//		               exporter whose Export / ForceFlush / Shutdown return an error; replayed on LErr.stepE (ErrLP.lean)
+//		emp <gen> <kinds> | <mp ops> … => <obs> …      the same for the meter provider: periodic readers around a recording exporter
+//		               with PER-CALLBACK error kinds: `pe` Export errs, `pf` ForceFlush errs, `ps` Shutdown errs, `pa` all three;
+//		               live contexts only; replayed on MErr.stepE (ErrMP.lean)
 //		gtp <gen> <kinds> | <tp ops> endg:j:k <tp ops> rel … => <obs> …     forced schedule: `endg:j:k` Ends span slot j in a
 //		               goroutine whose delivery parks inside OnEnd of recording processor k (obs `parked…`; `-…` if the End
 //		               ran through), the following ops run while that End is mid-delivery, `rel` releases it and waits for
 //		               the End to return (a panic inside End is recovered and observed as `panic`)
+//		ptp <gen> <kinds> | <tp ops> ffpark:p|ffpark:i <tp ops> rel … => <obs> …   forced schedule at the verifPoint hooks of sdk/trace
+//		               (leg `park`, built with -tags verif): `ffpark:p` calls TracerProvider.ForceFlush(background), `ffpark:i`
+//		               pool[i].ForceFlush(background), in a goroutine that parks at `bsp.ForceFlush.checked` of the first batch
+//		               processor it reaches that is not stopped — i.e. BETWEEN that processor's stopped check and the enqueue of
+//		               its flush marker (obs `parked…`; the plain result if no processor parked it); the following ops run while
+//		               it is parked (Shutdown / Unregister / direct processor Shutdown complete meanwhile, further End calls, a
+//		               second ForceFlush), `rel` releases it and waits for the ForceFlush to return (obs = its result + deltas;
+//		               a ForceFlush that never returns is caught by the per-script watchdog: `hang`)
 //		lp <gen> <kinds> | lg:k em:k ff:c sd:c … => <obs> …
 //		mp <gen> <kinds> | mt:k ad:k co:i ff:c sd:c … => <obs> …
 //		ctp|clp|cmp <gen> <kinds> | <prefix ops> ! <ops run by concurrent callers> ! <suffix ops>
@@ -86,6 +104,33 @@ type gateCtl struct {
 	release chan struct{}
 }
 
+// parkCtl parks ONE goroutine at a named verifPoint hook of sdk/trace (one-shot arming; build tag verif only: without the
+// tag the hooks are compiled out, setVerifHook is nil and `ffpark` never parks).
+type parkCtl struct {
+	name    string       // written before armed.Store(1)
+	armed   atomic.Int32 // 1 = the next call of hook `name` parks
+	parked  chan struct{}
+	release chan struct{}
+}
+
+// setVerifHook installs fn as sdktrace.VerifPointFn (c15_park_test.go, build tag verif); nil otherwise.
+var setVerifHook func(fn func(name string))
+
+// curPark is the parkCtl of the script being executed (the hook variable of sdk/trace is global and set once).
+var curPark atomic.Pointer[parkCtl]
+var verifHookOnce sync.Once
+
+func verifHook(name string) {
+	pc := curPark.Load()
+	if pc == nil || pc.armed.Load() != 1 || pc.name != name {
+		return
+	}
+	if pc.armed.CompareAndSwap(1, 0) {
+		pc.parked <- struct{}{}
+		<-pc.release
+	}
+}
+
 // hookCtl: re-entrant user callbacks. A component with hooks runs the action named for a callback from inside that
 // callback — only at depth 0, so that the telemetry a hook produces does not trigger hooks again.
 type hookCtl struct {
@@ -124,10 +169,20 @@ func parseHooks(kk string, hk *hookCtl) (string, hooks) {
 }
 
 type recSpanProc struct {
-	c   *cnt
-	idx int
-	g   *gateCtl
-	h   hooks
+	c    *cnt
+	idx  int
+	g    *gateCtl
+	h    hooks
+	fail bool // kind `re`: Shutdown and ForceFlush report an error
+}
+
+var errBoom = errors.New("boom")
+
+func (p recSpanProc) result() error {
+	if p.fail {
+		return errBoom
+	}
+	return nil
 }
 
 func (p recSpanProc) OnStart(context.Context, sdktrace.ReadWriteSpan) { p.c.a.Add(1); p.h.fire('a') }
@@ -139,50 +194,76 @@ func (p recSpanProc) OnEnd(sdktrace.ReadOnlySpan) {
 	}
 	p.h.fire('e')
 }
-func (p recSpanProc) ForceFlush(context.Context) error { p.c.f.Add(1); p.h.fire('f'); return nil }
-func (p recSpanProc) Shutdown(context.Context) error   { p.c.s.Add(1); p.h.fire('s'); return nil }
+func (p recSpanProc) ForceFlush(context.Context) error { p.c.f.Add(1); p.h.fire('f'); return p.result() }
+func (p recSpanProc) Shutdown(context.Context) error   { p.c.s.Add(1); p.h.fire('s'); return p.result() }
 
 type recSpanExp struct {
-	c *cnt
-	h hooks
+	c    *cnt
+	h    hooks
+	fail bool // kinds `sre` / `bre`: ExportSpans and Shutdown report an error (after counting)
+}
+
+func (x recSpanExp) result() error {
+	if x.fail {
+		return errBoom
+	}
+	return nil
 }
 
 func (x recSpanExp) ExportSpans(_ context.Context, s []sdktrace.ReadOnlySpan) error {
 	x.c.n.Add(int64(len(s)))
 	x.h.fire('x')
-	return nil
+	return x.result()
 }
-func (x recSpanExp) Shutdown(context.Context) error { x.c.s.Add(1); x.h.fire('s'); return nil }
+func (x recSpanExp) Shutdown(context.Context) error { x.c.s.Add(1); x.h.fire('s'); return x.result() }
 
 type recLogProc struct {
-	c *cnt
-	h hooks
+	c    *cnt
+	h    hooks
+	fail bool // kind `re`: OnEmit, ForceFlush and Shutdown report an error (after counting)
+}
+
+func boomIf(fail bool) error {
+	if fail {
+		return errBoom
+	}
+	return nil
 }
 
 func (p recLogProc) OnEmit(context.Context, *sdklog.Record) error {
 	p.c.e.Add(1)
 	p.h.fire('e')
-	return nil
+	return boomIf(p.fail)
 }
-func (p recLogProc) ForceFlush(context.Context) error { p.c.f.Add(1); p.h.fire('f'); return nil }
-func (p recLogProc) Shutdown(context.Context) error   { p.c.s.Add(1); p.h.fire('s'); return nil }
+func (p recLogProc) ForceFlush(context.Context) error {
+	p.c.f.Add(1)
+	p.h.fire('f')
+	return boomIf(p.fail)
+}
+func (p recLogProc) Shutdown(context.Context) error { p.c.s.Add(1); p.h.fire('s'); return boomIf(p.fail) }
 
 type recLogExp struct {
-	c *cnt
-	h hooks
+	c    *cnt
+	h    hooks
+	fail bool // kinds `sre` / `bre`: Export, ForceFlush and Shutdown report an error (after counting)
 }
 
 func (x recLogExp) Export(_ context.Context, r []sdklog.Record) error {
 	x.c.n.Add(int64(len(r)))
 	x.h.fire('x')
-	return nil
+	return boomIf(x.fail)
 }
-func (x recLogExp) ForceFlush(context.Context) error { x.c.f.Add(1); x.h.fire('f'); return nil }
-func (x recLogExp) Shutdown(context.Context) error   { x.c.s.Add(1); x.h.fire('s'); return nil }
+func (x recLogExp) ForceFlush(context.Context) error {
+	x.c.f.Add(1)
+	x.h.fire('f')
+	return boomIf(x.fail)
+}
+func (x recLogExp) Shutdown(context.Context) error { x.c.s.Add(1); x.h.fire('s'); return boomIf(x.fail) }
 
 type recMetricExp struct {
-	c *cnt
-	h hooks
+	c                   *cnt
+	h                   hooks
+	failX, failF, failS bool // kinds `pe` / `pf` / `ps` / `pa`: Export / ForceFlush / Shutdown report an error (after counting)
 }
 
 func (x recMetricExp) Temporality(sdkmetric.InstrumentKind) metricdata.Temporality {
@@ -194,10 +275,14 @@ func (x recMetricExp) Aggregation(k sdkmetric.InstrumentKind) sdkmetric.Aggregat
 func (x recMetricExp) Export(context.Context, *metricdata.ResourceMetrics) error {
 	x.c.n.Add(1)
 	x.h.fire('x')
-	return nil
+	return boomIf(x.failX)
 }
-func (x recMetricExp) ForceFlush(context.Context) error { x.c.f.Add(1); x.h.fire('f'); return nil }
-func (x recMetricExp) Shutdown(context.Context) error   { x.c.s.Add(1); x.h.fire('s'); return nil }
+func (x recMetricExp) ForceFlush(context.Context) error {
+	x.c.f.Add(1)
+	x.h.fire('f')
+	return boomIf(x.failF)
+}
+func (x recMetricExp) Shutdown(context.Context) error { x.c.s.Add(1); x.h.fire('s'); return boomIf(x.failS) }
 
 // ---------------------------------------------------------------- helpers
 
@@ -336,6 +421,8 @@ type tpRun struct {
 	spans   map[int]trace.Span
 	gate    *gateCtl
 	fly     chan string // result channel of the parked End, nil if none
+	park    *parkCtl
+	pfly    chan string // result channel of the ForceFlush parked at a verifPoint hook, nil if none
 	// bookkeeping for the settle wait only (never used for judging): registrations, provider shut down, processors whose
 	// exporter has to be shut down eventually
 	regs []int
@@ -350,6 +437,11 @@ func newTP(kinds []string, optN int, ops []string) (*tpRun, int) {
 	r := &tpRun{w: newWorld(len(kinds)), kinds: kinds, tracers: map[int]trace.Tracer{}, spans: map[int]trace.Span{},
 		regs: make([]int, len(kinds)), must: make([]bool, len(kinds)),
 		gate: &gateCtl{parked: make(chan struct{}), release: make(chan struct{})}}
+	r.park = &parkCtl{parked: make(chan struct{}), release: make(chan struct{})}
+	curPark.Store(r.park)
+	if setVerifHook != nil {
+		verifHookOnce.Do(func() { setVerifHook(verifHook) })
+	}
 	far := sdktrace.WithBatchTimeout(time.Hour)
 	r.hk = &hookCtl{do: func(act string) {
 		switch act {
@@ -368,11 +460,15 @@ func newTP(kinds []string, optN int, ops []string) (*tpRun, int) {
 		r.kinds[i] = k
 		switch k {
 		case "sr":
-			p = sdktrace.NewSimpleSpanProcessor(recSpanExp{r.w.cs[i], h})
+			p = sdktrace.NewSimpleSpanProcessor(recSpanExp{c: r.w.cs[i], h: h})
+		case "sre":
+			p = sdktrace.NewSimpleSpanProcessor(recSpanExp{c: r.w.cs[i], h: h, fail: true})
+		case "bre":
+			p = sdktrace.NewBatchSpanProcessor(recSpanExp{c: r.w.cs[i], h: h, fail: true}, far)
 		case "sn":
 			p = sdktrace.NewSimpleSpanProcessor(nil)
 		case "br":
-			p = sdktrace.NewBatchSpanProcessor(recSpanExp{r.w.cs[i], h}, far)
+			p = sdktrace.NewBatchSpanProcessor(recSpanExp{c: r.w.cs[i], h: h}, far)
 		case "bn":
 			bo := []sdktrace.BatchSpanProcessorOption{far}
 			if strings.Contains(kopts, "t") {
@@ -385,8 +481,10 @@ func newTP(kinds []string, optN int, ops []string) (*tpRun, int) {
 				bo = append(bo, sdktrace.WithMaxQueueSize(2), sdktrace.WithMaxExportBatchSize(1))
 			}
 			p = sdktrace.NewBatchSpanProcessor(nil, bo...)
+		case "re":
+			p = &recSpanProc{c: r.w.cs[i], idx: i, g: r.gate, h: h, fail: true}
 		default:
-			p = &recSpanProc{r.w.cs[i], i, r.gate, h}
+			p = &recSpanProc{c: r.w.cs[i], idx: i, g: r.gate, h: h}
 		}
 		r.pool = append(r.pool, p)
 	}
@@ -499,7 +597,38 @@ func (r *tpRun) op(tok string) string {
 			r.gate.armed.Store(0)
 			return msg
 		}
+	case "ffpark":
+		var call func() error
+		if p[1] == "p" {
+			call = func() error { return r.tp.ForceFlush(context.Background()) }
+		} else if arg(1) < len(r.pool) {
+			sp := r.pool[arg(1)]
+			call = func() error { return sp.ForceFlush(context.Background()) }
+		} else {
+			return "ok"
+		}
+		if r.pfly != nil { // one parked call at a time: an ordinary ForceFlush
+			return resOf(call())
+		}
+		r.park.name = "bsp.ForceFlush.checked"
+		r.park.armed.Store(1)
+		done := make(chan string, 1)
+		go func() { done <- resOf(call()) }()
+		select {
+		case <-r.park.parked:
+			r.pfly = done
+			return "parked"
+		case msg := <-done:
+			r.park.armed.Store(0)
+			return msg
+		}
 	case "rel":
+		if r.pfly != nil {
+			r.park.release <- struct{}{}
+			msg := <-r.pfly // a ForceFlush that never returns: the script's watchdog fires (observation `hang`)
+			r.pfly = nil
+			return msg
+		}
 		if r.fly == nil {
 			return "-"
 		}
@@ -554,7 +683,7 @@ func (r *tpRun) track(tok string) {
 func (r *tpRun) settle() bool {
 	done := func() bool {
 		for i, k := range r.kinds {
-			if r.must[i] && (k == "sr" || k == "br") && r.w.cs[i].s.Load() < 1 {
+			if r.must[i] && (k == "sr" || k == "br" || k == "sre" || k == "bre") && r.w.cs[i].s.Load() < 1 {
 				return false
 			}
 		}
@@ -572,6 +701,15 @@ func (r *tpRun) settle() bool {
 }
 
 func (r *tpRun) close() {
+	if r.pfly != nil {
+		r.park.release <- struct{}{}
+		select {
+		case <-r.pfly:
+		case <-time.After(200 * time.Millisecond):
+		}
+		r.pfly = nil
+	}
+	r.park.armed.Store(0)
 	if r.fly != nil {
 		r.gate.release <- struct{}{}
 		<-r.fly
@@ -629,11 +767,18 @@ func newLP(kinds []string) *lpRun {
 		k, kopts, _ := strings.Cut(kk, "+")
 		switch k {
 		case "sr":
-			p = sdklog.NewSimpleProcessor(recLogExp{r.w.cs[i], h})
+			p = sdklog.NewSimpleProcessor(recLogExp{c: r.w.cs[i], h: h})
+		case "sre":
+			p = sdklog.NewSimpleProcessor(recLogExp{c: r.w.cs[i], h: h, fail: true})
+		case "bre":
+			p = sdklog.NewBatchProcessor(recLogExp{c: r.w.cs[i], h: h, fail: true}, far)
+			r.fuzzy = true
+		case "re":
+			p = recLogProc{c: r.w.cs[i], h: h, fail: true}
 		case "sn":
 			p = sdklog.NewSimpleProcessor(nil)
 		case "br":
-			p = sdklog.NewBatchProcessor(recLogExp{r.w.cs[i], h}, far)
+			p = sdklog.NewBatchProcessor(recLogExp{c: r.w.cs[i], h: h}, far)
 			r.fuzzy = true
 		case "bn":
 			bo := []sdklog.BatchProcessorOption{far}
@@ -649,7 +794,7 @@ func newLP(kinds []string) *lpRun {
 			p = sdklog.NewBatchProcessor(nil, bo...)
 			r.fuzzy = true
 		default:
-			p = recLogProc{r.w.cs[i], h}
+			p = recLogProc{c: r.w.cs[i], h: h}
 		}
 		opts = append(opts, sdklog.WithProcessor(p))
 	}
@@ -738,8 +883,10 @@ func newMP(kinds []string) *mpRun {
 	for i, kk := range kinds {
 		var rd sdkmetric.Reader
 		k, h := parseHooks(kk, r.hk)
-		if k == "p" {
-			rd = sdkmetric.NewPeriodicReader(recMetricExp{r.w.cs[i], h}, sdkmetric.WithInterval(time.Hour))
+		if k == "p" || k == "pe" || k == "pf" || k == "ps" || k == "pa" {
+			ex := recMetricExp{c: r.w.cs[i], h: h, failX: k == "pe" || k == "pa", failF: k == "pf" || k == "pa",
+				failS: k == "ps" || k == "pa"}
+			rd = sdkmetric.NewPeriodicReader(ex, sdkmetric.WithInterval(time.Hour))
 			r.fuzzy = true
 		} else {
 			rd = sdkmetric.NewManualReader()
@@ -835,7 +982,17 @@ func runScript(toks []string, emit func(string)) {
 	var r runner
 	var w *world
 	skip := 0
-	switch strings.TrimPrefix(strings.TrimPrefix(strings.TrimPrefix(kind, "c"), "g"), "r") {
+	base := strings.TrimPrefix(strings.TrimPrefix(strings.TrimPrefix(kind, "c"), "g"), "r")
+	if kind == "ptp" || kind == "etp" {
+		base = "tp"
+	}
+	if kind == "elp" {
+		base = "lp"
+	}
+	if kind == "emp" {
+		base = "mp"
+	}
+	switch base {
 	case "tp":
 		optN := 0
 		if bar > 3 {
@@ -1060,6 +1217,9 @@ func emitAll(t *testing.T, out *vOut, lines []string) {
 		}
 		// crash or hang somewhere in the batch: the culprit may be an earlier script's goroutine → all alone
 		for _, l := range batch {
+			if crashes >= 20 {
+				return // see above: do not confirm every single script of a batch on a tree that hangs all over
+			}
 			o := runOne(t, l)
 			if strings.HasSuffix(o, "panic") || strings.Contains(o, "settle!") {
 				crashes++
@@ -1274,6 +1434,184 @@ func genMP(r *vRand) string {
 		}
 	}
 	return fmt.Sprintf("mp rnd %s | %s", kindStr(ks), strings.Join(ops, " "))
+}
+
+// genErr: callback results as a script dimension (line kind etp) — pools with erring user processors `re`. Half of the
+// scripts are random trace scripts, half are built around the unregistration of an erring processor: it must leave the
+// list although its Shutdown reported an error (seeded C15-12), later spans must not reach it.
+var errKinds = []string{"r", "re", "re", "sr", "sre", "sre", "sn", "br", "bre", "bn"}
+
+func genErr(r *vRand) string {
+	ks := genKinds(r, errKinds, 1, 5)
+	n := len(ks)
+	ks[r.Intn(n)] = vPick(r, []string{"re", "re", "sre"})
+	stock := false
+	for _, k := range ks {
+		if k == "sr" || k == "br" || k == "sre" || k == "bre" {
+			stock = true
+		}
+	}
+	// a Shutdown with a done context on a stock processor around a recording exporter finishes asynchronously (Lag.lean):
+	// kept out of these scripts, the error dimension is orthogonal to it
+	sdCtx := func() string {
+		if stock {
+			return vPick(r, []string{"b", "b", "f"})
+		}
+		return vPick(r, ctxW)
+	}
+	var ops []string
+	if r.Bool() {
+		ops = append(ops, "tr:0")
+		var regd []int
+		for i := 0; i < n; i++ {
+			if ks[i] == "re" || ks[i] == "sre" || r.Intn(4) > 0 {
+				regd = append(regd, i)
+			}
+		}
+		if r.Intn(4) == 0 {
+			regd = append(regd, regd[r.Intn(len(regd))]) // duplicate registration
+		}
+		for i := len(regd) - 1; i > 0; i-- {
+			j := r.Intn(i + 1)
+			regd[i], regd[j] = regd[j], regd[i]
+		}
+		for _, i := range regd {
+			ops = append(ops, fmt.Sprintf("reg:%d", i))
+		}
+		ops = append(ops, "sp:0")
+		for k := 1 + r.Intn(4); k > 0; k-- {
+			x := r.Intn(100)
+			i := regd[r.Intn(len(regd))]
+			switch {
+			case x < 45:
+				ops = append(ops, fmt.Sprintf("unr:%d", i), "sp:0")
+			case x < 60:
+				ops = append(ops, "ff:"+vPick(r, ctxW))
+			case x < 70:
+				ops = append(ops, fmt.Sprintf("reg:%d", i), "sp:0")
+			case x < 80:
+				ops = append(ops, fmt.Sprintf("psd:%d", i))
+			case x < 90:
+				ops = append(ops, "st:0:1", fmt.Sprintf("unr:%d", i), "en:1")
+			default:
+				ops = append(ops, "sd:"+sdCtx(), "sp:0")
+			}
+		}
+		ops = append(ops, "ff:b", "sd:"+sdCtx(), "sp:0", "ff:b", "sd:b")
+		return fmt.Sprintf("etp unr %s | %s", kindStr(ks), strings.Join(ops, " "))
+	}
+	nops := 1 + r.Intn(25)
+	if r.Intn(3) > 0 {
+		ops = append(ops, "tr:0")
+	}
+	for len(ops) < nops {
+		x := r.Intn(100)
+		i := r.Intn(n)
+		switch {
+		case x < 24:
+			ops = append(ops, fmt.Sprintf("reg:%d", i))
+		case x < 38:
+			ops = append(ops, fmt.Sprintf("unr:%d", i))
+		case x < 44:
+			ops = append(ops, "sd:"+sdCtx())
+		case x < 54:
+			ops = append(ops, "ff:"+vPick(r, ctxW))
+		case x < 62:
+			ops = append(ops, fmt.Sprintf("tr:%d", r.Intn(3)))
+		case x < 80:
+			ops = append(ops, fmt.Sprintf("sp:%d", r.Intn(3)))
+		case x < 87:
+			ops = append(ops, fmt.Sprintf("st:%d:%d", r.Intn(3), r.Intn(3)))
+		case x < 94:
+			ops = append(ops, fmt.Sprintf("en:%d", r.Intn(3)))
+		default:
+			ops = append(ops, fmt.Sprintf("psd:%d", i))
+		}
+	}
+	return fmt.Sprintf("etp rnd %s | %s", kindStr(ks), strings.Join(ops, " "))
+}
+
+// genErrLP: callback results as a script dimension for the logger provider (line kind elp). Contexts are live whenever the
+// pool has a batch processor around a recording exporter (a done context makes its export asynchronous: Lag.lean).
+var errLogKinds = []string{"r", "re", "re", "sr", "sre", "sre", "sn", "br", "bre", "bre", "bn"}
+
+func genErrLP(r *vRand) string {
+	ks := genKinds(r, errLogKinds, 1, 4)
+	ks[r.Intn(len(ks))] = vPick(r, []string{"re", "sre", "bre"})
+	batch := false
+	for _, k := range ks {
+		if k == "br" || k == "bre" {
+			batch = true
+		}
+	}
+	ctx := func() string {
+		if batch {
+			return vPick(r, []string{"b", "b", "f"})
+		}
+		return vPick(r, ctxW)
+	}
+	nops := 2 + r.Intn(20)
+	ops := []string{"lg:0"}
+	sdDone := false
+	for len(ops) < nops {
+		x := r.Intn(100)
+		switch {
+		case x < 10:
+			ops = append(ops, fmt.Sprintf("lg:%d", r.Intn(3)))
+		case x < 60:
+			ops = append(ops, fmt.Sprintf("em:%d", r.Intn(2)))
+		case x < 85:
+			ops = append(ops, "ff:"+ctx())
+		default:
+			if len(ops) < nops/2 && r.Bool() {
+				continue
+			}
+			ops = append(ops, "sd:"+ctx())
+			sdDone = true
+		}
+	}
+	if !sdDone {
+		ops = append(ops, "sd:"+ctx())
+	}
+	ops = append(ops, "em:0", "ff:b", "sd:b")
+	return fmt.Sprintf("elp rnd %s | %s", kindStr(ks), strings.Join(ops, " "))
+}
+
+// genErrMP: callback results as a script dimension for the meter provider (line kind emp): periodic readers whose exporter
+// errs in one callback or in all; live contexts only (a done context races inside PeriodicReader.ForceFlush).
+var errMetricKinds = []string{"m", "p", "pe", "pe", "pf", "ps", "pa"}
+
+func genErrMP(r *vRand) string {
+	ks := genKinds(r, errMetricKinds, 1, 4)
+	ks[r.Intn(len(ks))] = vPick(r, []string{"pe", "pf", "ps", "pa"})
+	live := []string{"b", "b", "f"}
+	nops := 2 + r.Intn(18)
+	ops := []string{"mt:0"}
+	sdDone := false
+	for len(ops) < nops {
+		x := r.Intn(100)
+		switch {
+		case x < 10:
+			ops = append(ops, fmt.Sprintf("mt:%d", r.Intn(3)))
+		case x < 45:
+			ops = append(ops, fmt.Sprintf("ad:%d", r.Intn(2)))
+		case x < 60:
+			ops = append(ops, fmt.Sprintf("co:%d", r.Intn(len(ks))))
+		case x < 85:
+			ops = append(ops, "ff:"+vPick(r, live))
+		default:
+			if len(ops) < nops/2 && r.Bool() {
+				continue
+			}
+			ops = append(ops, "sd:"+vPick(r, live))
+			sdDone = true
+		}
+	}
+	if !sdDone {
+		ops = append(ops, "sd:"+vPick(r, live))
+	}
+	ops = append(ops, "ad:0", "ff:b", fmt.Sprintf("co:%d", r.Intn(len(ks))), "sd:b")
+	return fmt.Sprintf("emp rnd %s | %s", kindStr(ks), strings.Join(ops, " "))
 }
 
 // genGate: forced schedule — an End parked inside a recording processor while the membership changes.
@@ -1576,6 +1914,12 @@ func TestVerifC15Life(t *testing.T) {
 		switch {
 		case i%50 == 7:
 			lines = append(lines, genF26(r))
+		case i%25 == 3 || i%25 == 16:
+			lines = append(lines, genErr(r))
+		case i%25 == 9 || i%25 == 21:
+			lines = append(lines, genErrLP(r))
+		case i%25 == 6 || i%25 == 18:
+			lines = append(lines, genErrMP(r))
 		case i%25 == 13:
 			lines = append(lines, genNil(r))
 		case i%20 == 19:
